@@ -6,14 +6,14 @@
    flow that reopens the window (so that whatever was held back must appear).  Ids start at 0, in
    the middle of the range and two below 2^32 (Shift). *)
 EXTENDS Integers, Sequences, TLC, Json
-CONSTANTS Depth, Shift, Win0
+CONSTANTS Depth, Shift, Win0, Mms
 
-Alphabet == {"SendS", "SendM", "Flow0", "Flow1", "Flow2", "Flow3", "Flow2Lag", "Flow2Unset", "In", "InBig"}
+Alphabet == {"SendS", "SendM", "SendL", "Flow0", "Flow1", "Flow2", "Flow3", "Flow2Lag", "Flow2Unset", "In", "InBig"}
 VARIABLES script, nsend, nin
 vars == <<script, nsend, nin>>
 Init == script = <<>> /\ nsend = 0 /\ nin = 0
 Step(e) == /\ Len(script) < Depth /\ script' = Append(script, e)
-           /\ nsend' = IF e \in {"SendS", "SendM"} THEN nsend + 1 ELSE nsend
+           /\ nsend' = IF e \in {"SendS", "SendM", "SendL"} THEN nsend + 1 ELSE nsend
            /\ nin' = IF e \in {"In", "InBig"} THEN nin + 1 ELSE nin
 Next == \E e \in Alphabet : Step(e)
 Spec == Init /\ [][Next]_vars
@@ -26,7 +26,7 @@ Prefix == <<
   [e |-> "ABegin", s |-> "s1", cfg |-> [noi |-> 1000, iw |-> 4, ow |-> 50]],
   [e |-> "PFrame", perf |-> "begin", ch |-> 3, f |-> [rch |-> [ref |-> "s1"], noi |-> 7, iw |-> Win0, ow |-> 100]],
   [e |-> "AAttachS", l |-> "L1", s |-> "s1", cfg |-> [snd |-> 1, rcv |-> 0, idc |-> 0]],
-  [e |-> "PFrame", perf |-> "attach", ch |-> 3, f |-> [name |-> "L1", h |-> 5, role |-> "r", snd |-> 1, rcv |-> 0]],
+  [e |-> "PFrame", perf |-> "attach", ch |-> 3, f |-> [name |-> "L1", h |-> 5, role |-> "r", snd |-> 1, rcv |-> 0, mms |-> IF Mms > 0 THEN Mms ELSE -1]],
   [e |-> "PFrame", perf |-> "flow", ch |-> 3, ech |-> 0, f |-> [nii |-> [seen |-> 0], iw |-> Win0, noi |-> 7, ow |-> 100, h |-> 5, dc |-> 0, lc |-> 100]],
   [e |-> "AAttachR", l |-> "L2", s |-> "s1", cfg |-> [snd |-> 1, rcv |-> 0, credit |-> 50, auto_accept |-> TRUE]],
   [e |-> "PFrame", perf |-> "attach", ch |-> 3, f |-> [name |-> "L2", h |-> 6, role |-> "s", snd |-> 1, rcv |-> 0, idc |-> 0]] >>
@@ -37,6 +37,7 @@ Body(sc, i, ns, ni) ==
   LET e == sc[i] IN
   CASE e = "SendS" -> <<[e |-> "ASend", l |-> "L1", m |-> ns + 1, len |-> 20]>> \o Body(sc, i + 1, ns + 1, ni)
     [] e = "SendM" -> <<[e |-> "ASend", l |-> "L1", m |-> ns + 1, len |-> 1100]>> \o Body(sc, i + 1, ns + 1, ni)
+    [] e = "SendL" -> <<[e |-> "ASend", l |-> "L1", m |-> ns + 1, len |-> 330]>> \o Body(sc, i + 1, ns + 1, ni)
     [] e \in {"Flow0", "Flow1", "Flow2", "Flow3"} -> <<PFlow([seen |-> 0], CASE e = "Flow0" -> 0 [] e = "Flow1" -> 1 [] e = "Flow2" -> 2 [] OTHER -> 3)>> \o Body(sc, i + 1, ns, ni)
     [] e = "Flow2Lag" -> <<PFlow([seen |-> 1], 2)>> \o Body(sc, i + 1, ns, ni)
     [] e = "Flow2Unset" -> <<PFlow(-1, 2)>> \o Body(sc, i + 1, ns, ni)
